@@ -21,7 +21,7 @@ BOUNDARY = {
     'C03': 'modelled: `execute_select` ORDER BY (`nullitemgetter`, one `list.sort` per run of equal direction, `reversed(order_spec)`), DISTINCT (`uses_distinct`), LIMIT.  `list.sort` stability and Python ordering across types are assumptions of the model (`sortable` = where Python raises TypeError).',
     'C04': 'modelled: the overload tables of every operator (generated), the semantic functions, `types.function_lookup` with MRO, implicit casts of `_binaryop`.  The type oracle runs on the implementation: the Python type of every fetched cell against the announced datatype.',
     'C05': 'modelled: `Compiler._compile_*` validation rules and `Compiler.compile` parameter checks; the parser is covered by C06.  Exceptions raised while folding an out-of-domain constant are function-domain errors (C18).',
-    'C06': 'modelled: the grammar `bql.ebnf` as a deterministic scanner (`Lexer.lean`) and recursive-descent parser (`Parser.lean`) with the semantic actions of `parser/__init__.py`.  Proof at token level; the character level (case folding, white space, comments, literal spellings, the two context-dependent readings of `%` and `)s`) is tied by correspondence only.  TatSu is not modelled: "shipped parser = grammar" is translation validation (V).',
+    'C06': 'modelled: the grammar `bql.ebnf` as a deterministic scanner (`Lexer.lean`) and recursive-descent parser (`Parser.lean`) with the semantic actions of `parser/__init__.py`.  The parser proof is at token level; the scanner proof (`C06_lex`) covers written tokens separated by blanks (any letter case, all literal spellings, the context-dependent reading of `%`); other white space, comments and tokens written without a separator are tied by correspondence only.  TatSu is not modelled: "shipped parser = grammar" is translation validation (V).',
     'C07': 'modelled: `get_target_name`, wildcard expansion, `_compile_group_by` / `_compile_order_by` appending invisible targets, `result_indexes`.',
     'C08': 'modelled: `SubqueryTable`, `EvalConstantSubquery1D` (IN / NOT IN over a materialised one-column subquery, empty result = NULL), `_compile_from` for subqueries (table scoping after the repair).',
     'C09': 'modelled: placeholder collection and numbering in `Compiler.compile` (old and repaired), `_placeholder`, constant folding of pure nodes; the model is pure, so "never mutates the source" is checked by deep snapshots.',
